@@ -974,7 +974,7 @@ struct elements_range_t {
 
 	auto operator=(elements_range_t const&) -> elements_range_t& = delete;
 
-	auto operator=(elements_range_t     && other) noexcept -> elements_range_t& {  // cannot be =delete in NVCC?
+	auto operator=(elements_range_t     && other) noexcept(std::is_nothrow_copy_assignable_v<value_type>) -> elements_range_t& {  // copies the elements  // cannot be =delete in NVCC?
 		BOOST_MULTI_ASSERT(size() == other.size());
 		if(! is_empty()) {adl_copy(other.begin(), other.end(), this->begin());}
 		return *this;
@@ -2159,7 +2159,7 @@ class subarray : public const_subarray<T, D, ElementPtr, Layout> {
 		this->elements() = other.elements();
 		return *this;
 	}
-	constexpr auto operator=(subarray&& other) & noexcept -> subarray& {  // TODO(correaa) make conditionally noexcept
+	constexpr auto operator=(subarray&& other) & noexcept(std::is_nothrow_copy_assignable_v<T>) -> subarray& {  // assigns the elements
 		// if(this == std::addressof(other)) { return *this; }
 		BOOST_MULTI_ASSERT(this->extensions() == other.extensions());
 		this->elements() = std::move(other).elements();
